@@ -204,11 +204,20 @@ def rule_last_mount_wins(chk, rid):
     kp = params(rt)[1]
     rets = returns_of(rt)
     store_rets = [r for r in rets if U(r.value) not in ("self.default_store",)]
-    chk.floor(rid, len(store_rets), 2, "route_to mount returns")
+    chk.floor(rid, len(store_rets), 1, "route_to mount returns")
+    exact = False
+    for r in store_rets:
+        lits_ = dominating_literals(cfg, cfg.node_of(r))
+        if any(t_ in (f"{kp} == prefix", f"prefix == {kp}") and pol for _, t_, pol, _ in lits_) and not any("is_supported" in t_ for _, t_, _, _ in lits_):
+            exact = True
+    chk.ob(rid, f"{mp.qual}.route_to", exact, "a key equal to a mount prefix is routed to that mount unconditionally (`key == prefix` -> return store, "
+           "without asking is_supported): the mount point itself is served by the store mounted there", rt, mod, key="exact-match")
     for r in store_rets:
         lits = dominating_literals(cfg, cfg.node_of(r))
         eq = any(txt_ == f"{kp} == prefix" and pol for _, txt_, pol, _ in lits)
-        sw = any(txt_ == f"{kp}.startswith(prefix)" and pol for _, txt_, pol, _ in lits)
+        keyish = {kp} | {s_.targets[0].id for s_ in body_walk(rt) if isinstance(s_, ast.Assign) and isinstance(s_.targets[0], ast.Name)
+                         and U(s_.value).replace('"', "'") == f"{kp} + '/'"}
+        sw = any(txt_ in {f"{k_}.startswith(prefix)" for k_ in keyish} and pol for _, txt_, pol, _ in lits)
         if sw:
             # prefix must have been extended with '/' before the test
             ext = [s for s in body_walk(rt) if isinstance(s, ast.AugAssign) and U(s.target) == "prefix" and U(s.value) == "'/'"]
@@ -315,4 +324,5 @@ def run(chk):
     rule_boolean_predicates(chk, "C14.6")
     rule_global_helpers(chk, "C14.7")
     X.rule_prefix_tests_at_boundary(chk, "C14.8")
+    X.rule_prefix_test_direction(chk, "C14.9")
     X.rule_exception_siblings(chk, "C14.9")
